@@ -504,3 +504,64 @@ twin('C20', 'fs-store-max-idiom', FSPY, 'FileStorage.store',
      '''            if oid > self._oid:
                 self.set_max_oid(oid)''', '''            if self._oid < oid:
                 self.set_max_oid(oid)''')
+
+# ---------------------------------------------------------------- C04
+UTILPY = 'ZODB/utils.py'
+FMTPY = 'ZODB/FileStorage/format.py'
+breaker('C04', 'bs-begin-no-laterthan', 'C04.R1', BSPY, 'BaseStorage.tpc_begin',
+        'self._ts = t = t.laterThan(self._ts)', 'self._ts = t')
+breaker('C04', 'bs-begin-basis-not-updated', 'C04.R1', BSPY,
+        'BaseStorage.tpc_begin',
+        'self._ts = t = t.laterThan(self._ts)', 't = t.laterThan(self._ts)')
+breaker('C04', 'newtid-no-laterthan', 'C04.R1', UTILPY, 'newTid',
+        '''    if old is not None:
+        ts = ts.laterThan(TimeStamp(old))
+''', '')
+breaker('C04', 'ms-begin-basis-ltid-missing', 'C04.R1', MSPY,
+        'MappingStorage.tpc_begin',
+        'tid = ZODB.utils.newTid(old_tid)', 'tid = ZODB.utils.newTid(None)')
+breaker('C04', 'trans-hdr-len-wrong', 'C04.R2', FMTPY, None,
+        'TRANS_HDR_LEN = 23\n', 'TRANS_HDR_LEN = 24\n')
+breaker('C04', 'data-find-unpack-arity', 'C04.R2', FSPY, 'FileStorage._data_find',
+        'tid, tl, status, ul, dl, el = unpack(TRANS_HDR, h)',
+        'tid, tl, status, ul, dl = unpack(TRANS_HDR, h)')
+breaker('C04', 'fsrecover-format-drift', 'C04.R2', 'ZODB/fsrecover.py',
+        'read_txn_header',
+        'unpack(">8s8scHHH", h)', 'unpack(">8s8scHH", h)')
+breaker('C04', 'undosearch-u64-on-int', 'C04.R2', FSPY, 'UndoSearch._readnext',
+        "'size': tl,", "'size': u64(tl),")
+breaker('C04', 'loadbefore-inclusive', 'C04.R3', FSPY, 'FileStorage.loadBefore',
+        'if h.tid < tid:', 'if h.tid <= tid:')
+breaker('C04', 'ms-loadbefore-inclusive', 'C04.R3', MSPY,
+        'MappingStorage.loadBefore',
+        'before = ZODB.utils.p64(before - 1)', 'before = ZODB.utils.p64(before)')
+breaker('C04', 'loadserial-not-exact', 'C04.R3', FSPY, 'FileStorage.loadSerial',
+        'if h.tid == serial:', 'if h.tid <= serial:')
+breaker('C04', 'pack-index-swap-outside-lock', 'C04.R4', FSPY, 'FileStorage.pack',
+        '''                    self._initIndex(index, self._tindex)
+                    self._pos = opos
+''', '''                    pass
+            self._initIndex(index, self._tindex)
+            self._pos = opos
+''')
+breaker('C04', 'finish-outside-write-lock', 'C04.R4', FSPY,
+        'FileStorage.tpc_finish',
+        'with self._files.write_lock():', 'if True:')
+breaker('C04', 'reopen-ltid-constant', 'C04.R5', FSPY, 'FileStorage.__init__',
+        '''        self._ltid = tid
+
+        # self._pos should always''', '''        self._ltid = z64
+
+        # self._pos should always''')
+breaker('C04', 'iterator-misspelt-helper', 'C04.R6', FSPY,
+        'FileIterator._skip_to_start',
+        'return self._scan_backward(pos2, start)',
+        'return self._scan_backwards(pos2, start)')
+twin('C04', 'bs-begin-two-steps', BSPY, 'BaseStorage.tpc_begin',
+     '''                self._ts = t = t.laterThan(self._ts)
+                self._tid = t.raw()''',
+     '''                t = t.laterThan(self._ts)
+                self._ts = t
+                self._tid = t.raw()''')
+twin('C04', 'loadbefore-swapped-operands', FSPY, 'FileStorage.loadBefore',
+     'if h.tid < tid:', 'if tid > h.tid:')
